@@ -104,7 +104,7 @@ struct Outcome {           // what one execution of a scenario looked like from 
     size_t failures; Str firstFailure; Str allText; bool bodyCompleted; size_t callsMade; size_t crashes /* times the framework's crash method was asked for (crashOnFailure) */;
     Outcome() : failures(0), bodyCompleted(false), callsMade(0), crashes(0) {}
 };
-struct CallPlan { int fn; int obj; Vec<int> vals; Str dev; int task; bool extra; int scope; bool shortForm; int xget; bool midRoot; bool midClear /* a scope nobody uses is cleared while this call is under way */; };   // xget: 0, or one more read of the returned value through getter number xget, whatever the stored type
+struct CallPlan { int fn; int obj; Vec<int> vals; Str dev; int task; bool extra; int scope; bool shortForm; int xget; bool midRoot; bool midClear /* a scope nobody uses is cleared while this call is under way */; bool outFirst /* the output parameter is passed before the input parameters */; };   // xget: 0, or one more read of the returned value through getter number xget, whatever the stored type
 struct ExpPlan { int fn; int count; int flags; int obj; Vec<int> vals; int ret; int scope; };      // flags: 1 ignoreOtherParameters, 2 named scope, 4 short form (last parameter not specified, and not passed by its calls)
 struct Scenario { bool strict, ignoreOther, useScope, preFail; bool nestedCmp /* comparators make a mock call of their own */; bool scopeCopier /* the custom type's copier is installed through the named scope only */; bool unmodOut /* the int output parameter is expected unmodified; calls may then pass no destination (NULL) */; bool crashOn /* crashOnFailure switched on: the crash method (a counter here) must be asked for by the same failures through both interfaces */; bool leaveDisabled /* the body ends by switching the mock off */; bool otherVal /* also read a value through the other mock support (known finding C19-support-level-value-of-other-scope) */; int rounds; int type2 /* fn6's object parameter uses a second custom type: same equality function, other to-string */, tol /* 0 none, else index into tolPool for fn3's double parameter */; Vec<ExpPlan> exps; Vec<CallPlan> calls; Vec<Op> data; };
 
@@ -220,6 +220,9 @@ struct CppFront : public Front {
         (void)((sc.useScope || c.scope) ? mock() : mock("scope1")).hasReturnValue(); (void)m(sc, c.scope);      // the other mock support is looked at while this call is still being made, then the call goes on
         if (c.obj && c.dev != "noobject") x.onObject(objectPtr(c.dev == "object" ? otherObject(c.obj) : c.obj));
         if (c.midRoot && sc.ignoreOther && (sc.useScope || c.scope)) mock().actualCall("not_expected_fn");      // e.g. an argument expression that itself calls a mocked function of the root mock
+        int outInt = -1; MyType outObj = { -1, 0 };
+        if (c.outFirst && F.out && F.outTy == T_INT) x.withOutputParameter("out", (sc.unmodOut && (c.vals.empty() ? c.task : c.vals[0] + c.task) % 2) ? (void*)0 : (void*)&outInt);      // (argument order is the caller's business: the destination may come first)
+        if (c.outFirst && F.out && F.outTy == T_OBJ) x.withOutputParameterOfType("MyType", "out", &outObj);
         for (int k = 0; k < F.np; k++) {
             if (c.dev == sfmt("omit:%d", k)) continue;
             if (c.shortForm && F.np >= 1 && k == F.np - 1) continue;
@@ -242,9 +245,8 @@ struct CppFront : public Front {
             default: break;
             }
         }
-        int outInt = -1; MyType outObj = { -1, 0 };
-        if (F.out && F.outTy == T_INT) x.withOutputParameter("out", (sc.unmodOut && (c.vals.empty() ? c.task : c.vals[0] + c.task) % 2) ? (void*)0 : (void*)&outInt);      // an optional out-argument the caller does not want
-        if (F.out && F.outTy == T_OBJ) x.withOutputParameterOfType("MyType", "out", &outObj);
+        if (!c.outFirst && F.out && F.outTy == T_INT) x.withOutputParameter("out", (sc.unmodOut && (c.vals.empty() ? c.task : c.vals[0] + c.task) % 2) ? (void*)0 : (void*)&outInt);      // an optional out-argument the caller does not want
+        if (!c.outFirst && F.out && F.outTy == T_OBJ) x.withOutputParameterOfType("MyType", "out", &outObj);
         if (c.midClear) mock("io").clear();      // another scope (one nobody uses) is cleared in the middle of this call: nothing of this call changes
         // returned value through every getter that is legal for the type, plus the tagged form and the defaulting getters
         Str line = sfmt("%s has=%d", F.name, (int)x.hasReturnValue());
@@ -388,6 +390,9 @@ struct CFront : public Front {
         const Fn& F = FNS[c.fn];
         MockActualCall_c* x = m(sc, c.scope)->actualCall(F.name);
         (void)((sc.useScope || c.scope) ? mock_c() : mock_scope_c("scope1"))->hasReturnValue(); (void)m(sc, c.scope);
+        int outInt = -1; MyType outObj = { -1, 0 };
+        if (c.outFirst && F.out && F.outTy == T_INT) x->withOutputParameter("out", (sc.unmodOut && (c.vals.empty() ? c.task : c.vals[0] + c.task) % 2) ? (void*)0 : (void*)&outInt);
+        if (c.outFirst && F.out && F.outTy == T_OBJ) x->withOutputParameterOfType("MyType", "out", &outObj);
         for (int k = 0; k < F.np; k++) {
             if (c.dev == sfmt("omit:%d", k)) continue;
             if (c.shortForm && F.np >= 1 && k == F.np - 1) continue;
@@ -410,9 +415,8 @@ struct CFront : public Front {
             default: break;
             }
         }
-        int outInt = -1; MyType outObj = { -1, 0 };
-        if (F.out && F.outTy == T_INT) x->withOutputParameter("out", (sc.unmodOut && (c.vals.empty() ? c.task : c.vals[0] + c.task) % 2) ? (void*)0 : (void*)&outInt);
-        if (F.out && F.outTy == T_OBJ) x->withOutputParameterOfType("MyType", "out", &outObj);
+        if (!c.outFirst && F.out && F.outTy == T_INT) x->withOutputParameter("out", (sc.unmodOut && (c.vals.empty() ? c.task : c.vals[0] + c.task) % 2) ? (void*)0 : (void*)&outInt);
+        if (!c.outFirst && F.out && F.outTy == T_OBJ) x->withOutputParameterOfType("MyType", "out", &outObj);
         if (c.midClear) { mock_scope_c("io")->clear(); (void)m(sc, c.scope); }      // (then the mock support of this call is addressed again, as the next statement of a C caller would)
         Str line = sfmt("%s has=%d", F.name, x->hasReturnValue() ? 1 : 0);
         MockValue_c rv = x->returnValue();
@@ -615,7 +619,7 @@ struct Engine : public vf::Engine {
             int nTasks = strict ? 1 : (int)w.range(1, 4);
             Vec<Op> calls;
             for (size_t k = 0; k < G.ops.size(); k++) if (G.ops[k].kind == M_EXPECT) for (int n = 0; n < (int)G.ops[k].b; n++) {
-                Op c; c.kind = M_CALL; c.a = G.ops[k].a; c.d = G.ops[k].d; c.s = G.ops[k].s; c.phase = (int)w.below((uint64_t)nTasks); c.b = ((G.ops[k].c & 2) ? 1 : 0) | ((G.ops[k].c & 4) ? 2 : 0); if (!cfront && ignoreOther && w.chance(1, 3)) c.b |= 4; if (cfront && w.chance(1, 8)) c.b |= 8;      // 4: while this call (if it is made on the named scope) is still collecting its parameters, the root mock gets a call of its own (one it ignores)
+                Op c; c.kind = M_CALL; c.a = G.ops[k].a; c.d = G.ops[k].d; c.s = G.ops[k].s; c.phase = (int)w.below((uint64_t)nTasks); c.b = ((G.ops[k].c & 2) ? 1 : 0) | ((G.ops[k].c & 4) ? 2 : 0); if (!cfront && ignoreOther && w.chance(1, 3)) c.b |= 4; if (cfront && w.chance(1, 8)) c.b |= 8; if (w.chance(1, 4)) c.b |= 16;      // 4: while this call (if it is made on the named scope) is still collecting its parameters, the root mock gets a call of its own (one it ignores)
                 if (cfront && w.chance(1, 6)) c.c = w.range(1, 24);
                 if (G.ops[k].c & 1) { Vec<int> v = parseIdx(c.s); if (!v.empty()) v.back() = (int)w.below(7); c.s = joinIdx(v); }   // the ignored parameter may carry anything
                 calls.push_back(c);
@@ -661,7 +665,7 @@ struct Engine : public vf::Engine {
             const Op& o = G.ops[i];
             if (o.kind == M_EXPECT) { ExpPlan e; e.fn = (int)(o.a % N_FN); e.count = (int)o.b; e.flags = (int)o.c; e.obj = (int)o.d; e.vals = parseIdx(o.s); e.vals.resize((size_t)FNS[e.fn].np, 0); e.ret = atoi(o.s2.c_str()); e.scope = (e.flags & 2) ? 1 : 0; sc.exps.push_back(e); }
             else if (o.kind == M_CALL) {
-                CallPlan c; c.fn = (int)(o.a % N_FN); c.obj = (int)o.d; c.vals = parseIdx(o.s); c.vals.resize((size_t)FNS[c.fn].np, 0); c.dev = o.s2; c.task = o.phase; c.extra = o.s2 == "extra"; c.scope = (o.b & 1) ? 1 : 0; c.shortForm = (o.b & 2) != 0; c.midRoot = (o.b & 4) != 0; c.midClear = (o.b & 8) != 0; c.xget = (int)o.c;
+                CallPlan c; c.fn = (int)(o.a % N_FN); c.obj = (int)o.d; c.vals = parseIdx(o.s); c.vals.resize((size_t)FNS[c.fn].np, 0); c.dev = o.s2; c.task = o.phase; c.extra = o.s2 == "extra"; c.scope = (o.b & 1) ? 1 : 0; c.shortForm = (o.b & 2) != 0; c.midRoot = (o.b & 4) != 0; c.midClear = (o.b & 8) != 0; c.outFirst = (o.b & 16) != 0; c.xget = (int)o.c;
                 if (c.dev == "drop") continue;
                 sc.calls.push_back(c);
                 if (c.dev == "dup") { CallPlan c2 = c; c2.task = (c.task + 1) % 4; sc.calls.push_back(c2); }
